@@ -67,7 +67,7 @@ let read_cases (ic : in_channel) (f : case -> unit) : unit =
               | "KPL", [t] -> (match c.kpasses with
                   | (ev, ls) :: r -> c.kpasses <- (ev, (if t = "-" then [] else List.map int_of_string (String.split_on_char ',' t)) :: ls) :: r
                   | [] -> ())
-              | ("WD" | "WPHASE" | "WL"), l -> c.wevents <- (w :: l) :: c.wevents
+              | ("WD" | "WPHASE" | "WL" | "WS"), l -> c.wevents <- (w :: l) :: c.wevents
               | "CFG", l -> c.cfg <- List.map int_of_string l
               | "RS", [a; b; d] -> c.rs <- (Util.unhex a, Util.unhex b, Util.unhex d)
               | "INPUT", [h] -> c.input <- Util.unhex h
